@@ -61,7 +61,7 @@ func c15Gen(tier string) int {
 	if tier == "thorough" {
 		return 20000 // x50 queries
 	}
-	return 200
+	return 1000
 }
 
 var c15Examples = []string{
@@ -216,7 +216,17 @@ func c15Pipeline(r *fw.Rand, depth int) string {
 	qs := strings.Join(parts, " | ")
 	if r.Chance(1, 4) {
 		// variables, sometimes undefined / self-referential / mutually recursive
-		switch r.Intn(5) {
+		switch r.Intn(9) {
+		case 5: // the variable refers to itself inside the argument of a function
+			fn := []string{"Only", "First", "Last", "Combine", "NodesWithTagPath", "MergeDocumentsAndIndividuals"}[r.Intn(6)]
+			base := []string{".Individuals", "Document1 | .Individuals", ".Families", ".Nodes", qs}[r.Intn(5)]
+			qs = "X is " + base + " | " + fn + "(X); X"
+		case 6:
+			qs = "X is " + []string{".Individuals", ".Families", qs}[r.Intn(3)] + " | {a: X}; X"
+		case 7:
+			qs = "X is .Individuals | Only(Y); Y is .Individuals | Only(X); X"
+		case 8:
+			qs = "X is .Individuals | Only(.Name | X | .String = \"a\"); X | " + qs
 		case 0:
 			qs = "X is " + qs + "; X"
 		case 1:
@@ -360,7 +370,7 @@ func init() {
 		Run:   c15Run,
 		Batch: func(tier string, n int) int { return 8 },
 		Rule: "every query goes through ParseString -> Evaluate (1 and 2 freshly decoded documents: empty, one person, generated family graph) -> all five formatters into a buffer, under recover() with panic classification; stack overflows and other process-fatal crashes and hangs are attributed by the supervisor through the case marker. " +
-			"queries: (a) exhaustive token sequences up to length 3 (quick) / 4 (thorough) over a 27-token alphabet (incl. an unbalanced quote), (b) well-formed pipelines of depth <= 3 generated over all accessors found by reflection (methods with arguments included) and all built-in functions with 0..3 arguments, with defined/undefined/self-referential/mutually recursive variables, (c) token-mutated documented examples, (d) random bytes, (e) a sample through the real 'gedcom query' binary in every format. non-trivial = query parsed and evaluated to a value; distinct by query text + documents",
+			"queries: (a) exhaustive token sequences up to length 3 (quick) / 4 (thorough) over a 27-token alphabet (incl. an unbalanced quote), (b) well-formed pipelines of depth <= 3 generated over all accessors found by reflection (methods with arguments included) and all built-in functions with 0..3 arguments, with defined/undefined/self-referential/mutually recursive variables (also referring to themselves inside the arguments of Only, First, Last, Combine and inside object fields), (c) token-mutated documented examples, (d) random bytes, (e) a sample through the real 'gedcom query' binary in every format. non-trivial = query parsed and evaluated to a value; distinct by query text + documents",
 		Floors: func(a *fw.Agg, tier string) []string {
 			var f []string
 			for _, k := range []string{"queries", "syntax-errors", "parsed", "evaluation-errors", "evaluated", "formatter-writes", "formatter-errors", "cli-runs"} {
